@@ -9,7 +9,7 @@ NOINLINE = [P + r'SkipComment\(', P + r'SkipWS\(', P + r'Eol\(\)', P + r'Eos\(',
             P + r'parse_internal\(', P + r'is_operator\(',
             r'eval_error::eval_error\(', r'eval_error::~eval_error\(', r'^std::__cxx11::sto(i|l|ll|ul|ull)\(', r'chaiscript::const_var', r'chaiscript::parse_num<',
             r'basic_string<char, std::char_traits<char>, std::allocator<char> >::(basic_string|~basic_string|push_back|_M_append|_M_assign|_M_replace_aux|_M_replace|_M_erase|_M_mutate|_M_create|_M_construct|reserve|append|assign|operator\+=|operator=|clear|_M_dispose)',
-            r'File_Position::File_Position', r'std::vector<std::unique_ptr<chaiscript::eval::AST_Node_Impl<.*::(push_back|emplace_back)', r'chaiscript::Boxed_Value::Boxed_Value<', r'chaiscript::Boxed_Value::~Boxed_Value', r'std::operator\+<char, std::char_traits<char>, std::allocator<char> >']
+            r'File_Position::File_Position', r'chaiscript::Boxed_Number::', r'std::vector<std::unique_ptr<chaiscript::eval::AST_Node_Impl<.*::(push_back|emplace_back)', r'chaiscript::Boxed_Value::Boxed_Value<', r'chaiscript::Boxed_Value::~Boxed_Value', r'std::operator\+<char, std::char_traits<char>, std::allocator<char> >']
 FAM = Family('parser', 'parser.cpp', noinline=NOINLINE)
 # same TU, Position's members kept as callable units (P1 / C20 E1)
 FAM_POS = Family('parser_pos', 'parser.cpp', noinline=NOINLINE + [P + r'Position::'])
